@@ -23,7 +23,8 @@ setup = S.setup
 def correspondence(ctx):
     model = L.ocaml_build("c04")
     n = ctx.scale(3, 25)
-    cases = [c for c in S.gen_cases(ctx, n, 1, 1) if c["op"] in ("enc", "refenc")]
+    S.last_cases = S.gen_cases(ctx, n, 1, 1)
+    cases = [c for c in S.last_cases if c["op"] in ("enc", "refenc")]
     res = L.run_model(model, "\n".join(c["line"] for c in cases) + "\n")
     bad = L.diff_cases(cases, res)
     failures = []
@@ -40,6 +41,26 @@ def correspondence(ctx):
         failures.append(dict(layer=layer, what=f"C04: {what} (schema #{c['args'].split(' ')[0]})",
                              detail=json.dumps(dict(case=c["line"][:1500], go=c["go"][:800], model=str(c.get("model"))[:800])),
                              input=dict(case=c["line"], go=c["go"], model=c.get("model"))))
+    # unknown tagged fields: frames carrying two tagged fields the library does not know in every
+    # tag buffer (and in the response header) must decode to the very same value
+    ut = [c for c in S.last_cases if c["op"] == "dec" and c["feats"] == "unknown-tags"]
+    if ut:
+        ures, _ = S.run_dec_child(ut)
+        umod = L.run_model(model, "\n".join(c["line"] for c in ut) + "\n")
+        first_enc = {}
+        for c in cases:
+            if c["op"] == "enc":
+                first_enc.setdefault(c["args"].split(" ")[0], c)
+        for c in ut:
+            idx = c["args"].split(" ")[0]
+            g = ures.get(c["id"], "MISSING")
+            want = first_enc.get(idx)
+            wantv = want["go"].split(" ", 1)[1] if want and " " in want["go"] else None
+            gotv = g.split(" ", 2)[2] if g.startswith("ok ") and g.count(" ") >= 2 else None
+            if g != umod.get(c["id"]) or (wantv is not None and gotv != wantv):
+                failures.append(dict(layer="property", what=f"C04: a response with unknown tagged fields does not decode to the encoded value (schema #{idx})",
+                                     detail=json.dumps(dict(case=c["line"][:800], go=g[:400], model=str(umod.get(c["id"]))[:400], want=str(wantv)[:400])),
+                                     input=dict(case=c["line"], go=g, model=umod.get(c["id"]))))
     # the real decoder must return the value it was given (round trip on the implementation itself)
     rt_bad = 0
     for c in cases:
@@ -70,7 +91,7 @@ def correspondence(ctx):
                      "encoded by the real WriteRequest/WriteResponse, by the extracted model and by an independent layout encoder, byte-compared, "
                      "then decoded by the real ReadRequest/ReadResponse and by the model and compared as values; non-trivial = feature set beyond {req|res}",
                 samples=[c["line"][:240] + " | " + c["go"][:120] for c in cases[:2] + cases[len(cases)//2:len(cases)//2+2]],
-                failures=failures, extra=dict(schemas=len({c["args"].split(" ")[0] for c in cases})))
+                failures=failures, extra=dict(schemas=len({c["args"].split(" ")[0] for c in cases}), unknown_tag_frames=len(ut)))
 
 
 def search(ctx, violations):
